@@ -306,6 +306,9 @@ GroupTakeVerdict(p, i, o) ==       \* p: RQ pipeline, i: position of the take in
   IF o[1].k = "Distinct" THEN
        IF ~(t.lo \in {-1, 1} /\ t.hi = 1) THEN "distinct-range"
        ELSE IF t.sorted THEN "distinct-sorted"
+       \* only projections follow: the DISTINCT lands in the SELECT of the final projection and de-duplicates THAT list,
+       \* which therefore has to be the partition (fewer columns merge groups, more split them)
+       ELSE IF (\A j \in i + 1 .. Len(p) : p[j].k = "Select") /\ Set(t.part) # Set(FrameAt(p, Len(p))) THEN "distinct-over-projection"
        ELSE IF Set(t.part) # Set(FrameAt(p, i - 1)) /\ ~DeadAfter(p, i)
             \* (the code compares the partition with the select list at the END of the pipeline: finding F99)
             THEN IF Set(t.part) = Set(FrameAt(p, Len(p))) THEN "distinct-not-whole-row" ELSE "distinct-partition-mismatch"
